@@ -49,3 +49,11 @@ package stdlib_contracts
 //@ iface error.Error
 //@ assumed
 //@ pure
+
+//@ package bytes
+//@ import io io
+//@ func (*Reader).Len
+//@ assumed
+//@ pure
+//@ requires r != nil
+//@ ensures result == len(io.Reader(r).in) - io.Reader(r).pos
